@@ -10,6 +10,7 @@ import MsVerif.Driver.OpsDesc
 import MsVerif.Driver.OpsBounds
 import MsVerif.Driver.OpsPlan
 import MsVerif.Driver.OpsValidate
+import MsVerif.Driver.OpsPsbt
 
 namespace MsVerif.Driver
 
@@ -63,7 +64,10 @@ def step (st : DState) (line : String) : DState × String :=
                         | none =>
                           match opsValidate st.tables kind op args with
                           | some r => (st, r)
-                          | none => (st, "bad-op")
+                          | none =>
+                            match opsPsbt kind op args with
+                            | some r => (st, r)
+                            | none => (st, "bad-op")
   | _ => (st, "bad-op")
 
 end MsVerif.Driver
